@@ -44,17 +44,26 @@ pub fn number_text(node: &Node) -> String {
 
 /// Maximum nesting depth of XML elements accepted by the reader.
 /// E57 files need less than ten levels, the XML parser needs stack space for every level.
-const MAX_XML_DEPTH: usize = 64;
+const MAX_XML_DEPTH: usize = 128;
 
 /// Maximum number of attributes of a single XML element accepted by the reader.
 /// The XML parser compares every new attribute and namespace declaration with all earlier ones of the element.
-const MAX_XML_ATTRIBUTES: usize = 256;
+const MAX_XML_ATTRIBUTES: usize = 512;
+
+/// Maximum number of namespace declarations in the whole XML document accepted by the reader.
+/// The XML parser copies all namespaces that are in scope for every element that declares one more.
+const MAX_XML_NAMESPACES: usize = 512;
+
+/// Maximum number of extensions that can be registered for a new file.
+/// Every extension becomes a namespace declaration and attribute of the XML root element.
+pub const MAX_EXTENSIONS: usize = 250;
 
 /// Linear scan that rejects XML whose shape makes the recursive XML parser overflow the stack
 /// or spend quadratic time, before the parser sees it. Everything else is left to the parser.
 pub fn check_xml_shape(xml: &str) -> Result<()> {
     let bytes = xml.as_bytes();
     let mut depth = 0_usize;
+    let mut namespaces = 0_usize;
     let mut i = 0;
     while i < bytes.len() {
         if bytes[i] != b'<' {
@@ -87,10 +96,17 @@ pub fn check_xml_shape(xml: &str) -> Result<()> {
                 } else if *b == b'"' || *b == b'\'' {
                     quote = *b;
                     attributes += 1;
+                } else if *b == b'x' && bytes[k..].starts_with(b"xmlns") && bytes[k - 1].is_ascii_whitespace() {
+                    namespaces += 1;
                 } else if *b == b'>' {
                     end = k;
                     break;
                 }
+            }
+            if namespaces > MAX_XML_NAMESPACES {
+                Error::invalid(format!(
+                    "XML documents with more than {MAX_XML_NAMESPACES} namespace declarations are not supported"
+                ))?
             }
             if attributes > MAX_XML_ATTRIBUTES {
                 Error::invalid(format!(
